@@ -1955,7 +1955,8 @@ rrul_fill_Hly(echs_instant_t *restrict tgt, size_t nti, rrulsp_t rr)
 		     /* the cache may be full before the hour is through */
 		     res < nti && ENUM_COND(e, iS, iM); ENUM_ITER(e, iS, iM))
 #if defined ECHSE_VERIF
-		__CPROVER_assigns(iS, iM, res, __CPROVER_object_upto(tgt, 2U * GRP_CCH_OFF * sizeof(*tgt)))
+		/* auto_m is the enumeration macros' own variable for the unused hour index */
+		__CPROVER_assigns(iS, iM, auto_m, res, __CPROVER_object_upto(tgt, 2U * GRP_CCH_OFF * sizeof(*tgt)))
 		__CPROVER_loop_invariant(
 			iS <= e.nS && iM < e.nM && res <= nti &&
 			VERIF_DLY_SLOT_OK(tgt, verif_k, res, proto, rr->until))
